@@ -50,6 +50,7 @@ type Inst struct {
 	Input   EvStore
 	mainDB  kvdb.Store
 	epochDB map[idx.Epoch]kvdb.Store
+	restored map[idx.Epoch]kvdb.Store
 	Blocks  []BlockRec
 	SealAt  SealFn
 	BigIdx  bool // default-size index caches instead of the lite ones
@@ -82,10 +83,15 @@ func (in *Inst) callbacks() lachesis.ConsensusCallbacks {
 }
 
 func (in *Inst) open() {
+	// the epoch-database producer hands out a restored database once (after a restart); every other request gets
+	// a fresh empty database, as a real producer does after the previous database of that epoch was dropped
 	in.Store = abft.NewStore(in.mainDB, func(e idx.Epoch) kvdb.Store {
-		if in.epochDB[e] == nil {
-			in.epochDB[e] = memorydb.New()
+		if db, ok := in.restored[e]; ok {
+			delete(in.restored, e)
+			in.epochDB[e] = db
+			return db
 		}
+		in.epochDB[e] = memorydb.New()
 		return in.epochDB[e]
 	}, crit, abft.LiteStoreConfig())
 	cfg := vecfc.LiteConfig()
@@ -99,7 +105,7 @@ func (in *Inst) open() {
 
 // NewInst creates an instance with the given genesis.
 func NewInst(epoch idx.Epoch, vals *pos.Validators, input EvStore, bigIdx bool) *Inst {
-	in := &Inst{Input: input, mainDB: memorydb.New(), epochDB: map[idx.Epoch]kvdb.Store{}, BigIdx: bigIdx}
+	in := &Inst{Input: input, mainDB: memorydb.New(), epochDB: map[idx.Epoch]kvdb.Store{}, restored: map[idx.Epoch]kvdb.Store{}, BigIdx: bigIdx}
 	in.open()
 	if err := in.Store.ApplyGenesis(&abft.Genesis{Epoch: epoch, Validators: vals}); err != nil {
 		panic(err)
@@ -129,8 +135,9 @@ func (in *Inst) Restart() error {
 	ep := in.Store.GetEpoch()
 	cur := in.epochDB[ep]
 	in.epochDB = map[idx.Epoch]kvdb.Store{}
+	in.restored = map[idx.Epoch]kvdb.Store{}
 	if cur != nil {
-		in.epochDB[ep] = copyDB(cur)
+		in.restored[ep] = copyDB(cur)
 	}
 	nb := len(in.Blocks)
 	in.open()
